@@ -15,7 +15,7 @@ func (v mapSliceValue) Interface() any { return v.slice }
 func (v mapSliceValue) Contains(elem Value) bool {
 	e := elem.Interface()
 	for _, item := range v.slice {
-		if e == item.Key {
+		if Equal(e, item.Key) { // (== would panic on a key that cannot be compared, a slice say)
 			return true
 		}
 	}
@@ -25,7 +25,7 @@ func (v mapSliceValue) Contains(elem Value) bool {
 func (v mapSliceValue) IndexValue(index Value) Value {
 	e := index.Interface()
 	for _, item := range v.slice {
-		if e == item.Key {
+		if Equal(e, item.Key) {
 			return ValueOf(item.Value)
 		}
 	}
